@@ -283,12 +283,18 @@ theorem fresh_notin {l : List Nat} {n : Nat} (h : ∀ e ∈ l, e < n) (k : Nat) 
 
 theorem fresh_notin0 {l : List Nat} {n : Nat} (h : ∀ e ∈ l, e < n) : n ∉ l := fresh_notin h 0
 
+/-- an allocated event is none of the next ones (in the forms `simp` leaves them in) -/
+theorem ne_fresh {x n : Nat} (h : x < n) :
+    x ≠ n ∧ x ≠ n + 1 ∧ x ≠ n + 1 + 1 ∧ x ≠ n + 1 + 1 + 1 ∧ x ≠ n + 2 ∧ x ≠ n + 3 ∧
+    n ≠ x ∧ n + 1 ≠ x ∧ n + 1 + 1 ≠ x ∧ n + 1 + 1 + 1 ≠ x ∧ n + 2 ≠ x ∧ n + 3 ≠ x ∧
+    x < n + 1 ∧ x < n + 1 + 1 ∧ x < n + 1 + 1 + 1 := by
+  omega
+
 /-- discharge `EvKeep s S X` on a flat state `S` -/
 macro "evkeep" : tactic =>
   `(tactic| (intro e he hX
              simp only [List.mem_cons, List.mem_singleton, List.not_mem_nil, or_false, not_or] at hX
-             tsimp [Nat.ne_of_lt he, Nat.ne_of_lt (Nat.lt_add_right 1 he), Nat.ne_of_lt (Nat.lt_add_right 2 he),
-               Nat.ne_of_lt (Nat.lt_add_right 3 he), hX]))
+             tsimp [ne_fresh he, hX]))
 
 /-- close a goal `a'.ids.Nodup` from the facts in the context (the old `Nodup`, freshness of the new events) -/
 macro "nd_close" : tactic => `(tactic| (simp only [idsk]; grind))
